@@ -43,6 +43,9 @@ type Array struct {
 	Own *Owner
 	// StrSrc, when set, means this array is the byte image of a (possibly symbolic) string.
 	StrSrc Value
+	// OrigE: for arrays created as part of a symbolic input, the elements at creation (counterexamples
+	// render the input as it was given, not as the program left it)
+	OrigE []Value
 	// Enc, when set, means this array is the JSON encoding of a value (encoding/json model)
 	Enc *encoded
 }
